@@ -5,14 +5,16 @@ from conductor.config import COND_FILE_NAME
 from conductor.errors import InvalidTaskIdentifier
 
 IDENTIFIER_GROUP = "[a-zA-Z0-9_-]+"
-_NAME_REGEX = re.compile("^{}$".format(IDENTIFIER_GROUP))
+# N.B. We use `\Z` instead of `$` because `$` also matches just before a trailing
+# newline (e.g., "name\n" would otherwise be accepted as a valid name).
+_NAME_REGEX = re.compile(r"^{}\Z".format(IDENTIFIER_GROUP))
 _TASK_IDENTIFIER_REGEX = re.compile(
-    "^(//)?(?P<path>({ident}/)*({ident})?):(?P<name>{ident})$".format(
+    r"^(//)?(?P<path>({ident}/)*({ident})?):(?P<name>{ident})\Z".format(
         ident=IDENTIFIER_GROUP,
     ),
 )
 _RELATIVE_TASK_IDENTIFIER_REGEX = re.compile(
-    "^:(?P<name>{ident})$".format(ident=IDENTIFIER_GROUP)
+    r"^:(?P<name>{ident})\Z".format(ident=IDENTIFIER_GROUP)
 )
 
 
